@@ -470,6 +470,11 @@ class Resolver:
                         outs.extend((x, n) for x in t)
                     else:
                         unr.append(n)
+                elif isinstance(n, ast.Attribute) and isinstance(n.ctx, ast.Load) and isinstance(n.value, ast.Name) and n.value.id == "self" and fi.cls is not None:
+                    # reading a @property runs its getter
+                    m = self.p.find_method(fi.cls, n.attr)
+                    if m is not None and any(isinstance(d, ast.Name) and d.id in ("property", "cached_property") or (isinstance(d, ast.Attribute) and d.attr in ("cached_property",)) for d in m.node.decorator_list):
+                        outs.append((m, n))
             cg[fi.key] = outs
             unresolved[fi.key] = unr
         self._cg = cg
